@@ -223,6 +223,10 @@ def stepOp (d : DS) (op implObs : String) : DS × String × List String × List 
       if id ∉ s.regIds then finish d s "absent" [] ["branch:absent"]
       else finish d (bump s id ⟨kvNat toks "dl", kvNat toks "ul", kvNat toks "wa", kvNat toks "se"⟩) "ok" [] ["branch:bump"]
     | "flush" => finish d (updateStats s) "ok" [] ["branch:flush"]
+    | "bfcheck" =>
+      -- oracle only (bitfields are not part of the registry model): a torrent without a bitfield before and after
+      -- the last compaction has none in the compacted database
+      finish d s "bf=same" (if implRes = "bf=same" then [] else [s!"C14 compact-invents-bitfield {implRes}"]) ["branch:bfcheck"]
     | "compact" =>
       let c := (compact s).getD []
       -- oracle on the implementation's result
